@@ -274,3 +274,16 @@ Theorem constants_match_source :
   /\ Z.of_nat (length (read_bignum_digits 0 10 [])) = src_init_bignum_size.
 Proof. exact consts_match. Qed.
 Print Assumptions constants_match_source.
+
+(** Karatsuba: total correctness.  Every recursive call has operands of strictly smaller value, so the
+    recursion ends for all operands (no bound on the depth is claimed). *)
+From ChibiV Require Import C04.ProofsMulTerm.
+Theorem mul_karatsuba_total : forall x y, wf_big x -> wf_big y ->
+  exists fuel r, bignum_mul fuel x y = Some r /\ bval r = bval x * bval y /\ wf_big r.
+Proof. exact karatsuba_total. Qed.
+Print Assumptions mul_karatsuba_total.
+
+Theorem expt_total : forall a e, wf_big a -> 0 <= e ->
+  exists fuel mf r, bignum_expt fuel mf a e = Some r /\ nval r = bval a ^ e /\ canon r /\ wf_num r.
+Proof. exact bignum_expt_total. Qed.
+Print Assumptions expt_total.
